@@ -1072,6 +1072,11 @@ theorem sec_back (s : Nat) : parseFloat (fmtDec 1 ((s : Int) * 10)) = some (s : 
   rw [this, Rat.intCast_natCast]
   grind
 
+theorem all_empty_false_of_mem (vs : List (String × Str)) (k : String) (t : Str) (h : (k, t) ∈ vs)
+    (ht : t.isEmpty = false) : vs.all (fun kv => kv.2.isEmpty) = false := by
+  rw [List.all_eq_false]
+  exact ⟨(k, t), h, by simp [ht]⟩
+
 theorem head2_nav (r : NavRec) (hr : r.wf = true) (hG : r.sys = 'G') (hy1 : 1980 ≤ r.year) (hy2 : r.year < 2080) :
     head2 ['G'] (lineValues ⟨1, epochLayout2⟩
       (epochLine2 r.prn (r.year % 100) r.month r.day r.hour r.minute r.second r.c1 r.c2 r.c3)) =
@@ -1083,6 +1088,12 @@ theorem head2_nav (r : NavRec) (hr : r.wf = true) (hG : r.sys = 'G') (hy1 : 1980
   unfold head2
   have hyy : parseInt? (i22 (r.year % 100)) = some ((r.year % 100 : Nat) : Int) :=
     parseInt_fixed 2 (by decide) _ (by omega)
+  have hyne : (i22 (r.year % 100)).isEmpty = false := by
+    have : (i22 (r.year % 100)).length = 2 := by simp [i22, length_fixedDigits]
+    cases hh' : i22 (r.year % 100) with
+    | nil => rw [hh'] at this; simp at this
+    | cons _ _ => rfl
+  rw [all_empty_false_of_mem _ "year" (i22 (r.year % 100)) (by simp) hyne]
   simp only [get_cons, String.reduceEq, if_true, if_false, num19_head_not_alpha, Bool.false_eq_true, epoch2, clockOf,
     clockNames, List.mapM_cons, List.mapM_nil, floatField_num19 _ h1, floatField_num19 _ h2, floatField_num19 _ h3, hyy,
     Option.bind_eq_bind, Option.bind_some, year4_back r.year hy1 hy2, parseInt_natDigits, sec_back,
